@@ -894,6 +894,28 @@ class WriteTool(BaseTool):
 
         return corrections
 
+    @staticmethod
+    def _is_writable_key(key: str) -> bool:
+        """True when ``KEY::value`` is read back as an assignment to exactly that key.
+
+        A changes request writes a new key as it is spelled. A name the reader does not take as
+        one key (a space, a leading digit, true/false/null/vs, a sigil, "::") would be dropped,
+        split or refused on the next read, and the value set by the request with it.
+        """
+        from octave_mcp.core.lexer import TokenType
+
+        name = key[5:] if key.startswith("META.") else key
+        try:
+            tokens, _ = tokenize(f"{name}::x")
+        except LexerError:
+            return False
+        return (
+            len(tokens) >= 2
+            and tokens[0].type == TokenType.IDENTIFIER
+            and tokens[0].value == name
+            and tokens[1].type == TokenType.ASSIGN
+        )
+
     def _apply_changes(self, doc: Any, changes: dict[str, Any]) -> Any:
         """Apply changes to AST document with tri-state and dot-notation semantics.
 
@@ -1219,6 +1241,14 @@ class WriteTool(BaseTool):
                 return self._error_envelope(
                     target_path,
                     [{"code": "E_PARSE", "message": f"Parse error: {str(e)}"}],
+                )
+
+            # Field names must be names the reader takes back as one key
+            unwritable = [k for k in changes if not isinstance(k, str) or not self._is_writable_key(k)]
+            if unwritable:
+                return self._error_envelope(
+                    target_path,
+                    [{"code": "E_INPUT", "message": f"Invalid field name(s) in changes: {unwritable}"}],
                 )
 
             # Apply changes with tri-state semantics
